@@ -549,7 +549,7 @@ def gen_options(rng, seq_id):
     exactly one thing (a parameter, its type, the container or dtype of the inputs)"""
     rs = np_rng(rng)
     alpha = rng.choice([0.3, 1.0])
-    grid = rng.choice([0, 0, 4])
+    grid = 0                                  # real-valued entries: a float32 cast anywhere loses bits
     Q = [pwm(rs, rng.randint(1, 6), alpha, grid) for _ in range(rng.randint(1, 2))]
     T = [pwm(rs, rng.randint(1, 6), alpha, grid) for _ in range(rng.randint(2, 4))]
     if rng.random() < 0.4:
@@ -562,12 +562,14 @@ def gen_options(rng, seq_id):
     yield dict(base)
     changes = [
         {'nb': nb + rng.choice([1, 7, 10])}, {'rc': not base['rc']}, {'ntb': rng.choice([10, 100, 1000])},
-        {'nmb': rng.choice([1, 7, 100, 5000])}, {'ncache': 'maxoff+1'}, {'ncache': 'maxoff'}, {'ncache': 5 * nb},
+        {'ncache': 'maxoff+1'}, {'ncache': 'maxoff'}, {'ncache': 5 * nb},
         {'rc_form': rng.choice(['int', 'npbool'])}, {'n_jobs': rng.choice([1, 2, 'np3'])},
-        {'Tform': 'torch'}, {'Qform': 'torch'}, {'Qform': 'torch', 'Tform': 'torch'},
-        {'Qdt': 'float32', 'Tdt': 'float32'}, {'Tdt': 'float32', 'Tform': 'torch'},
+        {'Qform': 'torch'}, {'Qdt': 'float32', 'Tdt': 'float32'}, {'Tdt': 'float32', 'Tform': 'torch'},
+        {'nmb': rng.choice([100, 5000])},
     ]
-    for ch in rng.sample(changes, 4):
+    # always: float64 torch targets (the tensor branch), float64 torch queries+targets, a coarse median grid
+    always = [{'Tform': 'torch'}, {'Qform': 'torch', 'Tform': 'torch'}, {'nmb': rng.choice([1, 2, 3])}]
+    for ch in always + rng.sample(changes, 3):
         yield dict(base, **ch)
     yield dict(base)                         # the base call again, last
 
